@@ -203,6 +203,33 @@ def run(ctx):
                 continue
             if again is not real and not nf.mixed:
                 ctx.violation("C02:same-normal-form-different-objects", f"{model.show(t)} evaluated again after a refused operation is another object", {"term": t})
+        if rng.random() < 0.03:
+            # a text that multiplies two units for the first time in this process and is then refused (an unknown symbol at
+            # its end, an exponent nobody can read): the parse leaves no unit behind that the next expression would not be
+            names = [n for n in env.pools.unit_names if env.pools.units[n].symbols and env.pools.units[n].symbols[0].isascii() and env.pools.units[n].symbols[0].isalpha()]
+            na, nb = rng.sample(names, 2)
+            a_, b_ = env.pools.units[na], env.pools.units[nb]
+            ea, eb = rng.choice([1, 2, 3, 5, 7]), rng.choice([1, -1, 4, 6, -5])
+            text = rng.choice(["{a}^{ea}*{b}^{eb}/zqnosuchunit", "{a}^{ea}*{b}^{eb}*zqnosuchunit^2", "{a}^{ea}/{b}^{eb}/zqnosuchunit", "({a}^{ea}*{b}^{eb}"]).format(
+                a=a_.symbols[0], b=b_.symbols[0], ea=ea, eb=-eb if eb < 0 else eb)
+            try:
+                m.Unit.parse(text)
+                ctx.count("refused_parses_in_between/answered")
+            except Exception as e:
+                ctx.count(f"refused_parses_in_between/{type(e).__name__}")
+            x_, y_ = a_ ** ea, b_ ** eb
+            if mdl.nf_of_unit(x_ * y_).mixed:
+                ctx.count("refused_parses_in_between/mixed_base_product_not_judged")
+                continue
+            try:
+                ok = (x_ * y_ is y_ * x_ and x_ / y_ ** -1 is x_ * y_ and (x_ ** -1 / y_) ** -1 is x_ * y_ and (x_ * y_) / y_ is x_ and x_ / y_ is (y_ / x_) ** -1
+                      and m.Unit((x_ * y_).prefix, dict((x_ * y_).factors), (x_ * y_).dimension) is x_ * y_)
+            except Exception as e:
+                ctx.violation(f"C02:operator-raised:{type(e).__name__}", f"products of {na}**{ea} and {nb}**{eb} after the refused parse of {text!r}: {e}", {"text": text})
+                ok = True
+            if not ok:
+                ctx.violation("C02:same-normal-form-different-objects", f"after the refused parse of {text!r}, the products of {na}**{ea} and {nb}**{eb} taken in different "
+                              f"orders are different objects", {"text": text, "a": na, "b": nb})
         if i % 1500 == 7 and nontrivial:
             ctx.sample({"term": model.show(t), "value": core.safe_repr(real), "mixed_base": nf.mixed})
         # the same product in a shuffled evaluation order
